@@ -129,6 +129,39 @@ func loadProgram(repo string, overlay map[string][]byte) (*Program, error) {
 	for _, lm := range p.contracts.Lemmas {
 		p.lemmaOrder[lm.Name] = lm.Line
 	}
+	// closures are keyed by what they call: "closure(CALLEE)" is the unique function literal that calls CALLEE
+	for _, k := range p.contracts.Order {
+		i := strings.Index(k, ".closure(")
+		if i < 0 || !strings.HasSuffix(k, ")") {
+			continue
+		}
+		want := k[i+len(".closure(") : len(k)-1]
+		var found []*ssa.Function
+		for _, fn := range p.allFuncs {
+			if fn.Parent() == nil || p.funcKeys[fn][:i] != k[:i] {
+				continue
+			}
+			calls := false
+			for _, b := range fn.Blocks {
+				for _, in := range b.Instrs {
+					if c, ok := in.(ssa.CallInstruction); ok {
+						if sc := c.Common().StaticCallee(); sc != nil && calleeKey(sc) == want {
+							calls = true
+						}
+					}
+				}
+			}
+			if calls {
+				found = append(found, fn)
+			}
+		}
+		if len(found) != 1 {
+			return nil, fmt.Errorf("contract %s: %d function literals call %s (need exactly one)", k, len(found), want)
+		}
+		delete(p.funcs, p.funcKeys[found[0]])
+		p.funcs[k] = found[0]
+		p.funcKeys[found[0]] = k
+	}
 	// every contract must name an existing function
 	for _, k := range p.contracts.Order {
 		if _, ok := p.funcs[k]; !ok {
